@@ -12,17 +12,21 @@ namespace Lumina.Spec.C12
 open Lumina.Util
 open Lumina.Model.Merkle (HashFns)
 
-/-- the smallest power of two `≥ x` (searched among 2^0 … 2^64) -/
-def nextPow2 (x : Nat) : Nat := (((List.range 65).map (2 ^ ·)).find? (fun p => decide (x ≤ p))).getD 0
+/-- the smallest power of two `≥ x`: 1 for `x ≤ 1`, else `2 ^ (⌊log₂ (x - 1)⌋ + 1)` -/
+def nextPow2 (x : Nat) : Nat := if x ≤ 1 then 1 else 2 ^ ((x - 1).log2 + 1)
 
-/-- the largest power of two `≤ x` (for `x ≥ 1`) -/
-def prevPow2 (x : Nat) : Nat := (((List.range 65).reverse.map (2 ^ ·)).find? (fun p => decide (p ≤ x))).getD 0
+/-- the largest power of two `≤ x` (for `x ≥ 1`): `2 ^ ⌊log₂ x⌋` -/
+def prevPow2 (x : Nat) : Nat := 2 ^ x.log2
 
 /-- ⌈a / b⌉ -/
-def ceilDiv (a b : Nat) : Nat := (a + b - 1) / b
+def ceilDiv (a b : Nat) : Nat := if a % b = 0 then a / b else a / b + 1
 
-/-- ⌈√n⌉: the least `s` with `s² ≥ n` -/
-def ceilSqrt (n : Nat) : Nat := ((List.range (n + 1)).find? (fun s => decide (n ≤ s * s))).getD 0
+/-- ⌈√n⌉: the least `s` with `s² ≥ n`, by counting up from `s` (fuel `n + 1` suffices from 0) -/
+def ceilSqrtGo (n : Nat) : Nat → Nat → Nat
+  | 0, s => s
+  | f + 1, s => if n ≤ s * s then s else ceilSqrtGo n f (s + 1)
+
+def ceilSqrt (n : Nat) : Nat := ceilSqrtGo n (n + 1) 0
 
 /-- ADR-013: the subtree width is the smaller of the next power of two of ⌈n / threshold⌉ and the
     minimal square size of the blob, the next power of two of ⌈√n⌉ -/
@@ -40,11 +44,15 @@ def mmrSizes (w : Nat) : Nat → Nat → List Nat
 
 def isPow2 (n : Nat) : Bool := n != 0 && nextPow2 n == n
 
+/-- consecutive sizes never increase, and strictly decrease once below `w` -/
+def chainOk (w : Nat) : List Nat → Bool
+  | a :: b :: r => decide (b ≤ a) && (decide (a = w) || decide (b < a)) && chainOk w (b :: r)
+  | _ => true
+
 /-- the rule as a checker over OBSERVED sizes: they add up to `n`, every size is a power of two of
     at most `w`, sizes never increase, and below `w` they strictly decrease -/
 def specSizes (n w : Nat) (sizes : List Nat) : Bool :=
-  sizes.sum == n && sizes.all (fun s => isPow2 s && decide (s ≤ w)) &&
-  (sizes.zip (sizes.drop 1)).all (fun p => decide (p.2 ≤ p.1) && (decide (p.1 = w) || decide (p.2 < p.1)))
+  sizes.sum == n && sizes.all (fun s => isPow2 s && decide (s ≤ w)) && chainOk w sizes
 
 def partition {α : Type} : List Nat → List α → List (List α)
   | [], _ => []
